@@ -416,6 +416,8 @@ def rule_vocabulary():
         files = glob.glob(os.path.join(here, 'rules', '*.py')) + glob.glob(os.path.join(here, '*.py')) + \
             glob.glob(os.path.join(os.path.dirname(here), 'tables', '*'))
         for fp in files:
+            if os.path.basename(fp) in ('anchors.json',):
+                continue          # derived from the vocabulary; its fingerprints list callees that no rule names
             try:
                 txt = open(fp).read()
             except OSError:
